@@ -1,13 +1,14 @@
 // specDAG: an independent evaluator of the property text for the root graph, applicable when every node's
-// status is observable and the outcome does not depend on timing: all nodes are lambdas, no failing node,
-// all edges lead forward (acyclic), every node with a predecessor has a control predecessor, and no fan-in
-// merge fails.
+// output is a known function of its input and the outcome does not depend on timing: all nodes are lambdas or
+// pass-through nodes, no failing node, all edges lead forward (acyclic), and no fan-in merge fails.
 //
 // Rule (in topological = key order): a node without any predecessor is skipped; otherwise it runs iff some
 // control predecessor ran and routed control to it, on the merge of the outputs of the data predecessors that
-// ran and routed data to it; otherwise it is skipped. END: routed => the run is done with END's input as the
-// result, and every node END (transitively) waited for has executed; not routed => the run fails with "END
-// skipped" (class 5). In both cases only nodes the rule says run may have executed.
+// ran and routed data to it; otherwise it is skipped. A Workflow node without control predecessor but with
+// data-only inputs (outside the documented domain of WithNoDirectDependency) runs iff all its data
+// predecessors ran. END: routed => the run is done with END's input as the result, and every node END
+// (transitively) waited for has executed; not routed => the run fails with "END skipped" (class 5). In both
+// cases only nodes the rule says run may have executed.
 package main
 
 import (
@@ -33,7 +34,7 @@ func specDAG(c *gg.Case) specResult {
 	}
 	for i := range g.Nodes {
 		n := &g.Nodes[i]
-		if n.Key != gg.START && n.Kind != "lambda" {
+		if n.Key != gg.START && n.Kind != "lambda" && n.Kind != "pass" {
 			return res
 		}
 		fwd := func(t uint64) bool { return t == gg.END || (t > n.Key && t != gg.START) }
@@ -90,11 +91,19 @@ func specDAG(c *gg.Case) specResult {
 				vals = append(vals, v)
 			}
 		}
-		if !hasCtrl && hasData {
-			return res // data-only node: a skip report from a data predecessor decides by timing
-		}
 		if !hasCtrl && t == gg.END {
 			return res
+		}
+		if !hasCtrl && hasData {
+			// a Workflow node declared with data-only inputs exclusively (outside the documented domain of
+			// WithNoDirectDependency: no control path leads to it). The engine uses its data predecessors as
+			// triggers: it runs when every one of them ran, and is skipped as soon as one of them is skipped.
+			routed = true
+			for i := range g.Nodes {
+				if p := &g.Nodes[i]; isDataPred(p, t) && !res.ran[p.Key] {
+					routed = false
+				}
+			}
 		}
 		if !routed {
 			continue
@@ -122,6 +131,9 @@ func specDAG(c *gg.Case) specResult {
 		res.ran[t] = true
 		res.in[t] = in
 		out[t] = gg.MapOf(gg.KV{Key: t, V: in})
+		if n := g.NodeAt(t); n != nil && n.Kind == "pass" {
+			out[t] = in // a pass-through node hands its input on (its execution is not logged)
+		}
 		if n := g.NodeAt(t); n != nil && n.OutKey != 0 {
 			out[t] = gg.MapOf(gg.KV{Key: n.OutKey, V: out[t]})
 		}
@@ -165,6 +177,8 @@ func oracleSpec(c *gg.Case, o *gg.Obs) (string, string, bool) {
 	}
 	// everything END waited for has executed
 	need := map[uint64]bool{gg.END: true}
+	// (a node that runs waits for all its predecessors; a skipped node is decided as soon as its control
+	// predecessors are decided: the data predecessors of a skipped node are not waited for)
 	for changed := true; changed; {
 		changed = false
 		for i := range g.Nodes {
@@ -173,7 +187,7 @@ func oracleSpec(c *gg.Case, o *gg.Obs) (string, string, bool) {
 				continue
 			}
 			for t := range need {
-				if isCtrlPred(p, t) || isDataPred(p, t) {
+				if isCtrlPred(p, t) || (isDataPred(p, t) && (t == gg.END || sp.ran[t])) {
 					need[p.Key] = true
 					changed = true
 					break
@@ -182,7 +196,7 @@ func oracleSpec(c *gg.Case, o *gg.Obs) (string, string, bool) {
 		}
 	}
 	for k := range need {
-		if k != gg.END && sp.ran[k] {
+		if n := g.NodeAt(k); k != gg.END && sp.ran[k] && n != nil && n.Kind == "lambda" {
 			if _, ok := exec[k]; !ok {
 				return fmt.Sprintf("node %d is triggered and END waits for it, but it did not execute", k), "dag-spec-missing", true
 			}
